@@ -402,10 +402,22 @@ def check(ctx: Ctx, col: Collector, tier: str) -> None:
     for gname in ("get_class_documentation", "get_function_documentation"):
         gfi2 = pci.methods[gname]
         col.touched(gfi2)
-        loops = [n for n in ast.walk(gfi2.node) if isinstance(n, ast.For) and ast.unparse(n.iter).endswith(".parsed")]
-        if len(loops) != 1:
+        # the sections are walked in the function itself or in a helper of the class it hands the docstring to
+        scopes = [gfi2] + [pci.methods[c.func.attr] for c in ast.walk(gfi2.node) if isinstance(c, ast.Call) and isinstance(c.func, ast.Attribute) and c.func.attr in pci.methods
+                           and isinstance(c.func.value, ast.Name) and c.func.value.id in ("self", "cls", DP) and c.func.attr != gname
+                           and not c.func.attr.startswith("get_") and "cached" not in c.func.attr]
+        keyed = [(sc, n) for sc in scopes for n in ast.walk(sc.node) if isinstance(n, ast.DictComp) and any(ast.unparse(g.iter).endswith(".parsed") for g in n.generators) and ".kind" in ast.unparse(n.key)]
+        if keyed:
+            sc, n = keyed[0]
+            col.bad("C13.ACCUMULATE", f"{DOCPARSER}::{DP}.{gname}::sections-by-kind", repo.loc(DOCPARSER, n), f"`{ast.unparse(n)[:90]}` in {sc.qualname}",
+                    f"{gname}: the sections of the docstring are collected into a dict keyed by their kind (`{ast.unparse(n)[:70]}`): a docstring with two sections of one kind "
+                    f"(text before and after the parameter section, two example blocks) keeps only the last of them in the stub")
+            continue
+        found = [(sc, n) for sc in scopes for n in ast.walk(sc.node) if isinstance(n, ast.For) and ast.unparse(n.iter).endswith(".parsed")]
+        if len(found) != 1:
             raise AnalysisError(f"{gname}: section loop not found")
-        loop = loops[0]
+        gfi2, loop = found[0]
+        col.touched(gfi2)
         returned = {x.id for r in ast.walk(gfi2.node) if isinstance(r, ast.Return) and r.value is not None for x in ast.walk(r.value) if isinstance(x, ast.Name)}
         updated: dict[str, list[ast.AST]] = {}
         for n in ast.walk(loop):
